@@ -380,9 +380,14 @@ CHECKS = {
                 "namespaces, and generated AND/OR/NOT/IN/range filters over user and reserved keys; every response to tenant T is judged against T's own "
                 "reference model alone; /usage, unauthenticated/unknown/disabled keys are probed; at the end every tenant's census equals its model. "
                 "two-world leg: tenant A's identical workload is run alone and interleaved with tenant B writing identical/nearby vectors, A's observable "
-                "responses are compared. distinct_nontrivial = distinct histories",
+                "responses are compared. provisioning leg: 1-5 tenants, some holding two enabled keys (rotation overlap), 2-4 rounds of writes with "
+                "colliding local ids through either key, a census of every tenant through every one of its keys, then 0-2 newly provisioned "
+                "tenants and a graceful or SIGKILL restart on the same data directory: a new tenant starts empty, both keys see the same "
+                "data, nobody's documents change. The unauthenticated probes include missing / unknown / disabled / prefix-only / empty / "
+                "truncated / valid-plus-trailing-bytes / case-changed keys. distinct_nontrivial = distinct histories",
         "legs": [{"name": "histories", "argv": ["c10", "--leg", "histories"], "bin_args": {"server": "server"}, "shards": 16, "timeout_q": 1800},
-                 {"name": "two-world", "argv": ["c10", "--leg", "two-world"], "bin_args": {"server": "server"}, "shards": 8, "timeout_q": 1800}],
+                 {"name": "two-world", "argv": ["c10", "--leg", "two-world"], "bin_args": {"server": "server"}, "shards": 8, "timeout_q": 1800},
+                 {"name": "provisioning", "argv": ["c10", "--leg", "provisioning"], "bin_args": {"server": "server"}, "shards": 16, "timeout_q": 1800}],
         "assumptions": COMMON_ASSUME + ["process-wide aggregate health and metrics counters are outside the property (as stated)",
                                          "timing side channels are not observed"],
         "min_evaluations": 16,
